@@ -17,9 +17,10 @@
   (`Ark.Props.C19Rel.model_is_blind_to_truncation`); the translated source is not.  A change of the
   Go function — e.g. the seeded change of round 6, `cntOld := min(len(stats.Tables), cntNew)`
   without `stats.Tables = stats.Tables[:cntNew]` — changes the generated definition, and
-  `source_updateStats_eq` no longer type-checks (tested on a copy of the generated file: the
-  decomposition of the generated function into its three loops fails), and is false: the changed
-  function keeps the stale tail, `source_truncates` fails for it.
+  `source_updateStats_eq` no longer type-checks and is false: the changed function keeps the stale
+  tail, `source_truncates` fails for it.  (The proofs do not depend on how the loops are worded —
+  in-place loop + appending loop, or one merged loop; the syntactic decomposition into the three
+  loops of the current source is pinned apart, in Ark.Props.C19SrcShape.)
 
   Vocabulary (Ark/Proofs/GenBridge/BookStats.lean): `gTable T` — the model's table as the
   structure generated from the Go struct `table` (`ofTable T` with `len`, `cap`); `gStorage w` —
@@ -64,24 +65,6 @@ theorem source_updateStats_eq (w : World) (A : Archetype) (st : ArchStats) :
     archetype_UpdateStats (ofArch A) (gArchStats st) (gStorage w) =
       gArchStats (w.archStatsUpdate A st) :=
   updateStats_eq w A st
-
-/-- the generated function IS the truncation followed by the three loops (`step1`: in place,
-    `step2`: append, `step3`: free tables) — by `rfl`, so any change of the generated definition
-    is noticed here -/
-theorem source_decompose (a : G_archetype) (stats : G_stats_Archetype) (S : G_storage) :
-    archetype_UpdateStats a stats S =
-      let cntNew := a.tables.tables.length
-      let p : Nat × G_stats_Archetype :=
-        if decide (cntNew < stats.Tables.length) then
-          (cntNew, { stats with Tables := stats.Tables.take cntNew })
-        else (stats.Tables.length, stats)
-      let r1 := (List.range p.1).foldl (step1 S a.tables) (0, 0, 0, 0, p.2)
-      let r2 := (List.range' p.1 (cntNew - p.1)).foldl (step2 S a.tables) r1
-      let r3 := (List.range a.freeTables.length).foldl
-        (step3 S a.freeTables r2.2.2.2.2.MemoryPerEntity) (r2.1, r2.2.2.1)
-      { r2.2.2.2.2 with FreeTables := a.freeTables.length, Capacity := r3.1, Size := r2.2.1,
-                        Memory := r3.2, MemoryUsed := r2.2.2.2.1 } :=
-  decompose a stats S
 
 /-- the in-place loop on the re-used slice: the first `k` entries are overwritten, what lies
     behind them STAYS (so a stored list that is not truncated keeps its stale tail), and the four
